@@ -112,7 +112,7 @@ def vtie(r, quick):
         r.broken_obligation("tie:node_eqb~exporter", "Coq's node_eqb and the harness's comparison of the exported terms disagree",
                             json.dumps({"src": c["src"], "fmt": c["fmt"]}, ensure_ascii=False))
     r._vtie_bad = bad
-    r._vtie_iff = [l for l in lines if l.get("iff_broken")]
+    r._vtie_iff = [l for l in lines if l.get("iff_broken") is True]
     return len(cases)
 
 
@@ -157,7 +157,7 @@ def search(r, quick):
                     {"src": c["src"], "fmt": c["fmt"], "cfg": c["cfg"], "shrunk": c.get("small")}, theorem="C10_prog_eqb_sound")
     for c in getattr(r, "_vtie_iff", []):
         r.violation(c.get("key") or ("vtie-iff:" + c["src"][:80]), "a source and its formatted text do not compile alike [%s]: %r" % (c["cfg"], c.get("small") or c["src"][:200]),
-                    c, theorem="C10_search_compile-iff")
+                    {k: c.get(k) for k in ("src", "fmt", "cfg", "small", "src_compiles", "fmt_compiles")}, theorem="C10_search_compile-iff")
     r.sample({"search": "counts by key", "violation_keys": summ.get("violation_keys")})
     r.coverage["evaluations"] = summ["evaluations"] + r.coverage.get("tie_V", {}).get("pairs", 0) + r.coverage.get("tie_C", {}).get("cases", 0)
     r.coverage["distinct_nontrivial"] = summ["changed_by_format"]
